@@ -20,6 +20,7 @@ func init() {
 	// crc.spec b -> the same real call; modelexec answers this op from the textbook register of
 	// Spec/Crc32.v, so the real code is compared with the specification directly
 	register("crc.spec", func(a []Val) Val { return VB(gots.ComputeCRC(a[0].B)) })
+	register("crc.tab", func(a []Val) Val { return VB(gots.ComputeCRC(a[0].B)) })
 	register("crc.residue", func(a []Val) Val {
 		in := append([]byte{}, a[0].B...)
 		c := gots.ComputeCRC(in)
